@@ -17,7 +17,7 @@ func init() { register(c18{}) }
 
 func (c18) ID() string { return "C18" }
 func (c18) Cases(t fw.Tier) int {
-	return tierN(t, 10000, 400000)
+	return tierN(t, 25000, 600000)
 }
 func (c18) Rule() string {
 	return "each case generates a schema document S (either draft; grouped generator with refs and unevaluated*) and 12 instances, then 5 decorated variants of S: at 1-4 random subschema positions one of " +
